@@ -423,7 +423,11 @@ class Plane:
         elif self.pixelscale[0] != self.pixelscale[1]:
             raise NotImplementedError("Can't resample non-uniformly sampled Plane")
 
-        return self.rescale(scale=self.pixelscale[0]/pixelscale)
+        plane = self.rescale(scale=self.pixelscale[0]/pixelscale)
+        # the resampled plane has the requested pixelscale (dividing by the
+        # ratio of the two does not always give it back exactly)
+        plane._pixelscale = (pixelscale, pixelscale)
+        return plane
 
     def multiply(self, wavefront):
         """Multiply with a wavefront
